@@ -128,7 +128,8 @@ def obligations(tier, seed):
                                   ('m^4294967301', 'Pow<Meters, 4294967301>'), ('m^(1/4294967299)', 'RatioPow<Meters, 1, 4294967299>'), ('m^(-3000000000)', 'Pow<Meters, -3000000000>'),
                                   ('m^2147483648', 'UnitPowerT<Meters, 2147483648>'), ('m^(-9223372036854775807)', 'Pow<Meters, -9223372036854775807>')],
               'scaled-common': [('EQUIV{[(1 / 5000) m], [(1 / 127) in]}', 'CommonUnitT<Inches, Meters>'), ('in', 'CommonUnitT<Feet, Inches>'),
-                                ('EQUIV{[(1 / 100) degC], [(1 / 100) K]}', 'CommonPointUnitT<Celsius, Kelvins>'), ('[(UNLABELED SCALE FACTOR) m]', 'decltype(Meters{} * mag<3>() * Magnitude<Pi>{})'),
+                                ('EQUIV{[(1 / 100) degC], [(1 / 100) K]}', 'CommonPointUnitT<Celsius, Kelvins>'), ('[(UNLABELED SCALE FACTOR) m]', 'decltype(Meters{} * mag<3>() * Magnitude<Pi>{})'), ('[(UNLABELED SCALE FACTOR) m]', 'decltype(Meters{} / Magnitude<Pi>{})'),
+                                ('[(UNLABELED SCALE FACTOR) m]', 'decltype(Meters{} * mag<2>() / root<2>(mag<3>()))'), ('[(UNLABELED SCALE FACTOR) m]', 'decltype(Meters{} * Magnitude<Pi>{} / mag<180>())'),
                                 ('[(25 / 3) m]', 'decltype(Meters{} / mag<3>() * pow<2>(mag<5>()))'), ('[12 in]', 'decltype(Inches{} * mag<12>())'), ('ft', 'Feet'),
                                 ('[2 ft]', 'CommonPointUnitT<decltype(Feet{} * mag<6>()), decltype(Feet{} * mag<10>())>'), ('[2 ft]', 'CommonUnit<decltype(Feet{} * mag<2>())>'),
                                 ('[2 ft]', 'CommonUnitT<decltype(Feet{} * mag<6>()), decltype(Feet{} * mag<10>())>'), ('in', 'CommonUnitT<decltype(Feet{} * mag<2>()), decltype(Inches{} * mag<12>()), Inches, decltype(Feet{} / mag<3>())>'),
